@@ -45,6 +45,7 @@
 package wal
 
 import (
+	"unsafe"
 	"bytes"
 	"encoding/binary"
 	"fmt"
@@ -412,6 +413,11 @@ type verifC21Params struct {
 	AsyncSwitch   bool    `json:"switch_from_monitor_goroutine"`
 	Profile       string  `json:"profile"`
 	Huge          bool    `json:"huge_records"`
+	// QueueCap, if > 0, is the initial capacity of the failover writer's record
+	// queue (white-box; production starts at 8192 entries, which a ~90-record
+	// script never fills): small capacities put the full / wrap-around /
+	// grow boundaries of recordQueue inside the script.
+	QueueCap int `json:"record_queue_initial_capacity"`
 }
 
 func verifC21GenScript(rng *rand.Rand) (verifC21Params, []verifC21Step) {
@@ -429,6 +435,7 @@ func verifC21GenScript(rng *rand.Rand) (verifC21Params, []verifC21Step) {
 		p.InitialDir = 1
 	}
 	p.NoSyncOnClose = rng.IntN(4) == 0
+	p.QueueCap = []int{0, 1, 2, 3, 4, 5, 8, 16}[rng.IntN(8)]
 	p.Huge = rng.IntN(16) == 0
 	// profile: how hostile the file systems are
 	p.Profile = []string{"stall", "stall", "faulty", "mixed", "mixed", "calm"}[rng.IntN(6)]
@@ -935,6 +942,11 @@ func (s *verifC21Run) setup() error {
 		writeWALSyncOffsets:         func() bool { return so },
 	}, s.dirs[s.curDir])
 	s.switchCalls = 1
+	if err == nil && s.p.QueueCap > 0 {
+		s.ww.q.mu.Lock()
+		s.ww.q.buffer = make([]recordQueueEntry, s.p.QueueCap)
+		s.ww.q.mu.Unlock()
+	}
 	return err
 }
 
@@ -1321,6 +1333,24 @@ func (s *verifC21Run) run() {
 		s.inconcl = true
 		return
 	}
+	// Close has returned and every goroutine of the writer has finished: every
+	// Done() that will ever be called has been called. A sync waiter whose
+	// WaitGroup counter is still positive now is lost for good (the committer
+	// would hang forever). This is decided on the counter, not on a timeout.
+	if verifC21WGCounterUsable() {
+		s.obsMu.Lock()
+		q := append([]*verifC21Rec(nil), s.obsQ...)
+		s.obsMu.Unlock()
+		for _, rec := range q {
+			if c := verifC21WGCounter(rec.wg); c > 0 {
+				s.violate(verifC21Finding{class: "sync-waiter-never-released", detail: fmt.Sprintf(
+					"case %d: Close returned (err=%v) and all writer goroutines finished, the record queue holds %d entries, but the sync waiter of record idx=%d seq=%d (queue capacity %d at start) was never signalled (WaitGroup counter %d): the commit that waits for it hangs forever",
+					s.caseID, s.closeErr, s.ww.q.length(), rec.idx, rec.seq, s.p.QueueCap, c),
+					match: map[string]any{}}, map[string]any{"params": s.p, "steps": s.stepStrings()})
+				rec.wg.Add(-int(c)) // release the observer
+			}
+		}
+	}
 	s.obsMu.Lock()
 	s.obsStop = true
 	s.obsCond.Signal()
@@ -1423,4 +1453,36 @@ func TestVerifC21(t *testing.T) {
 				"close_err": fmt.Sprint(s.closeErr)})
 		}
 	})
+}
+
+
+// verifC21WGCounter reads the counter of a sync.WaitGroup (the high 32 bits of
+// its leading state word). It is only used at full quiescence, to tell "the
+// waiter was never signalled" from "the observer goroutine has not run yet"
+// without a timeout. verifC21WGCounterUsable self-checks the layout.
+func verifC21WGCounter(wg *sync.WaitGroup) int32 {
+	return int32(atomic.LoadUint64((*uint64)(unsafe.Pointer(wg))) >> 32)
+}
+
+var verifC21WGOnce sync.Once
+var verifC21WGOK bool
+
+func verifC21WGCounterUsable() bool {
+	verifC21WGOnce.Do(func() {
+		if unsafe.Sizeof(sync.WaitGroup{}) < 8 {
+			return
+		}
+		var wg sync.WaitGroup
+		if verifC21WGCounter(&wg) != 0 {
+			return
+		}
+		wg.Add(3)
+		a := verifC21WGCounter(&wg)
+		wg.Done()
+		b := verifC21WGCounter(&wg)
+		wg.Add(-2)
+		c := verifC21WGCounter(&wg)
+		verifC21WGOK = a == 3 && b == 2 && c == 0
+	})
+	return verifC21WGOK
 }
